@@ -5,6 +5,7 @@ import Driver.Scale
 import Driver.Sort
 import Driver.Stream
 import Driver.Tz
+import Driver.Daemon
 open Driver
 
 def step (line : String) : String :=
@@ -18,6 +19,7 @@ def step (line : String) : String :=
     else if op.startsWith "q." then runSort op args
     else if op == "m.run" then runStream args
     else if op == "z.seq" then runTz args
+    else if op == "d.hist" then runDaemon args
     else "bad-op"
 
 partial def loop (h : IO.FS.Stream) (out : IO.FS.Stream) : IO Unit := do
